@@ -119,6 +119,13 @@ def noInnerFallbackL : List Range → Bool
   | r :: rs => !Ranges.isFallback r && noInnerFallback r && noInnerFallbackL rs
 end
 
+/-- shape invariant of the wrappers `EitherOfWrapper::new` builds -/
+def Wrapper.wf : Wrapper → Bool
+  | .single => true
+  | .duo => true
+  | .multiple n => decide (3 ≤ n) && decide (n ≤ 16)
+  | .nested last => last.wf
+
 /-- `d` is the effective locale of `l` for a key: `l` itself when it defines the key, otherwise
     the locale whose `compute` entry lists `l` -/
 def IsEffective (compute : List (Str × List Str)) (defining : List Str) (l d : Str) : Prop :=
